@@ -80,3 +80,23 @@ fn c13_redirect_value_is_the_whole_option_text() {
     assert_eq!(redirect(&e, "https://b.test/s.js"), Some(data_url("plain")));
     assert_eq!(redirect(&e, "https://c.test/x/s.js"), Some(data_url("v2")), "an exception for `shim` must not cancel `shim=v2.js`");
 }
+
+/// OBL C13.select.exception_names_the_resource
+#[test]
+fn c13_exception_cancels_the_resource_whatever_the_priority() {
+    // "not cancelled by a matching redirect exception for the same resource" (fixed by d03f383: the exception list held whole option
+    // values, so an exception without / with another priority suffix did not cancel)
+    for (rules, want) in [
+        (vec!["||x.test^$redirect=noop.js:10", "@@||x.test^$redirect-rule=noop.js"], None),
+        (vec!["||x.test^$redirect=noop.js", "@@||x.test^$redirect-rule=noop.js:5"], None),
+        (vec!["||x.test^$redirect=noop.js:10", "@@||x.test^$redirect-rule=noop.js:10"], None),
+        (vec!["||x.test^$redirect=noop.js:10", "||x.test^$redirect=other.js:5", "@@||x.test^$redirect-rule=noop.js"], Some("other")),
+        (vec!["||x.test^$redirect=noop.js:1", "||x.test^$redirect=other.js:5", "@@||x.test^$redirect-rule=other.js:9"], Some("noop")),
+        (vec!["||x.test^$redirect=noop.js:10", "@@||x.test^$redirect-rule=other.js"], Some("noop")),
+        (vec!["||x.test^$redirect=noop.js:-3", "||x.test^$redirect-rule=other.js:-7"], Some("noop")),
+    ] {
+        let mut e = Engine::from_rules(&rules, ParseOptions::default());
+        e.use_resources([res("noop.js", &[], "noop"), res("other.js", &[], "other")]);
+        assert_eq!(redirect(&e, "https://x.test/a.js"), want.map(data_url), "{rules:?}");
+    }
+}
